@@ -684,7 +684,7 @@ func (it *Interp) execNode(n Node, e *env, b *strings.Builder) error {
 				if !ok {
 					return ErrSkip
 				}
-				if it.autoescape && !hasSafe(a) {
+				if it.autoescape && !hasSafe(a) && !v.Safe { // markup (a macro's result) is printed as it is
 					s = EscapeHTML(s)
 				}
 				b.WriteString(s)
